@@ -69,6 +69,9 @@ def audit_sources(modules):
         for f in fn:
             if f.endswith(".lean"):
                 p = os.path.join(dp, f)
+                # property files of other properties are not in this property's import closure
+                if os.path.basename(dp) == "Props" and f[:-5] not in modules:
+                    continue
                 t = strip_lean_comments(open(p).read())
                 for tok in FORBIDDEN:
                     if tok in t:
